@@ -69,6 +69,7 @@ class System:
         self.decl_ops = []
         self.edges = []   # (A name, k Fraction, [(B name, exp)])
         self.by_dim = {}
+        self.islands = []
         nd = n_dims or rng.choice([1, 2, 3])
         dims = rng.sample(FUND, nd)
         k = 0
@@ -115,6 +116,22 @@ class System:
                             else:
                                 rhs.append((rng.choice(self.by_dim[FUND[i]]), e))
                     self._edge(rng, name, rhs)
+        # families of base units living directly in an inverse / mixed-sign dimension and related only
+        # among themselves (no product definition to splat into): the planner has to match and
+        # cancel them as they are
+        if compound:
+            for cd in rng.sample(["frequency", "speed", "acceleration", "force"], rng.randint(0, 2)):
+                members = []
+                for _ in range(rng.randint(2, 3)):
+                    name = f"zq{tag}u{k}"
+                    k += 1
+                    size = Fraction(2) ** rng.randint(-6, 6) if power_of_two else Fraction(rng.randint(1, 4000), rng.randint(1, 400))
+                    self.units[name] = (cd, size)
+                    self.by_dim.setdefault(cd + "*", []).append(name)   # kept apart from product-defined units
+                    members.append(name)
+                for i in range(1, len(members)):
+                    self._edge(rng, members[i], [(rng.choice(members[:i]), 1)])
+                self.islands.append(members)
         rng.shuffle(self.edges)
 
     def _edge(self, rng, a, rhs):
@@ -154,9 +171,10 @@ class System:
 
     def random_factors(self, rng, max_factors=3, max_exp=3):
         names = list(self.units)
+        island_names = [n for m in self.islands for n in m]
         out = {}
         for _ in range(rng.randint(1, max_factors)):
-            n = rng.choice(names)
+            n = rng.choice(island_names) if island_names and rng.random() < 0.4 else rng.choice(names)
             e = rng.randint(1, max_exp) * (1 if rng.random() < 0.6 else -1)
             out[n] = e
         return list(out.items())
@@ -164,6 +182,11 @@ class System:
     def alternative(self, rng, factors):
         out = {}
         for n, e in factors:
+            island = next((m for m in self.islands if n in m), None)
+            if island is not None:
+                b = rng.choice(island)
+                out[b] = out.get(b, 0) + e
+                continue
             d = self.units[n][0]
             if d not in FUND and rng.random() < 0.5:
                 for i, x in enumerate(DIMS[d]):
